@@ -124,10 +124,11 @@ func workerMain() {
 }
 
 // rawSleep blocks the calling thread in nanosleep. (time.Sleep is useless here: an idle P waits
-// for its timers in epoll with a granularity of 1 ms.)
+// for its timers in epoll with a granularity of 1 ms. Not RawSyscall: the garbage collector could
+// not stop a goroutine that spends its life inside a system call the scheduler does not know of.)
 func rawSleep(us int64) {
 	ts := syscall.Timespec{Sec: 0, Nsec: us * 1000}
-	syscall.RawSyscall(syscall.SYS_NANOSLEEP, uintptr(unsafe.Pointer(&ts)), 0, 0)
+	syscall.Syscall(syscall.SYS_NANOSLEEP, uintptr(unsafe.Pointer(&ts)), 0, 0)
 }
 
 // monitor revokes access to the input arena when one call of a decoder has consumed more CPU time
